@@ -96,6 +96,7 @@ AllOrNothing == [][phase = "pre" =>
                                   /\ SumSeq(SubSeq(st'.pools[HOwner], Len(st.pools[HOwner]) + 1, Len(st.pools[HOwner]) + 4), PoolLocked) = SplitSum)]_vars
 AccountsKeepAmounts == [][phase = "pre" => \A a \in DOMAIN st.accts :
                             /\ st'.accts[a].ov = st.accts[a].ov /\ st'.accts[a].kind = st.accts[a].kind
+                            /\ st'.accts[a].dv = st.accts[a].dv /\ st'.accts[a].df = st.accts[a].df /\ st'.accts[a].seq = st.accts[a].seq
                             /\ st'.accts[a].end - st'.accts[a].start = st.accts[a].end - st.accts[a].start]_vars
 ParamsPreserved == [][phase = "pre" => st'.minter = st.minter /\ st'.dist = st.dist /\ st'.vdenom = st.vdenom]_vars
 =============================================================================
